@@ -94,7 +94,11 @@ def tb(text):
     return text if isinstance(text, bytes) else text.encode("utf-8")
 
 EXPRS = ["1 + 2", '"a" + "b"', "2.5 * 2", "1 < 2", "null", "tup(1, \"x\")", "1 + 2 * ii", "1 / 0", "1 +", "nosuch", "tab(2, 1)", 'raw("x")', "int()",
-         "9223372036854775807 + 1", 'upper("abc")', "3 ** 39", '"50%"', '"%s%d%n"', '"%%"+"%5$s"', 'tup("%s",1)']
+         "9223372036854775807 + 1", 'upper("abc")', "3 ** 39", '"50%"', '"%s%d%n"', '"%%"+"%5$s"', 'tup("%s",1)',
+         # expressions that begin with a minus sign (they are not options)
+         "-1 + 2", "-1", "- 1", "-(2 + 3)", "-2.5 * 2", "-ii", "-e", "-x + 1"]
+# words that follow a complete expression are an error, not something to ignore
+EXPRS_EXTRA = ["1 2", "1 + 2 3", '"a" "b"', "1 )", "tup(1) 2", "1 print 2"]
 
 INTERACTIVE = [
     ("i-print", ['print "hello";', "a = 1 + 2;", "print a;"]),
@@ -110,6 +114,9 @@ INTERACTIVE = [
     ("i-command-name-run", ['print "a";', "run = 3;", "print run;"]),
     ("i-command-name-list", ["list = 5;", "print list + 1;"]),
     ("i-command-name-dump", ["dump = 5;", "print dump + 1;"]),
+    ("i-command-name-call", ["function run(x) return integer is", "begin", "return x * 2;", "end;", 'print "OUT " run(4);', "run(4);", 'print "after";']),
+    ("i-command-name-call-list", ["function list(x) return integer is", "begin", "return x;", "end;", "list(3);", "zz = list(4);", "print zz;"]),
+    ("i-command-name-call-help", ["function help(x) return integer is", "begin", "return x;", "end;", "help(3);", "print help(5);"]),
     ("i-begin-error", ["begin", "for i in 1 to 2 loop", "raise inner;", "end loop;", "exception when others then", 'print "caught";', "end;", "for k in 1 to 2 loop", "print k;", "end loop;"]),
 ]
 
@@ -371,6 +378,35 @@ def run(tier):
     # -e expressions
     ecases = [Case("e%d" % i, [op_ctx(0, True), "expr 0 %s" % hx(e + " ;"), op_run("print %s;" % e), op_out(0)], {"e": e}) for i, e in enumerate(EXPRS)]
     eref = run_batch(ecases)
+    # three ways to hand over the same expression: one word per token, one word in all, and with the value sent to a file
+    eforms = [("words", lambda e: (["-e"] + e.split(" "), None)), ("one-word", lambda e: (["-e", e], None)),
+              ("out-file", lambda e: (["--out=" + os.path.join(d, "e-out.txt"), "-e"] + e.split(" "), os.path.join(d, "e-out.txt")))]
+    for fname, mk in eforms[1:]:
+        for e, rr in zip(EXPRS, eref):
+            argv, outfile = mk(e)
+            rc, out, err, filedata = run_cli((exe, env, argv, None, outfile))
+            st = rr.get("steps", [{}, {}, {}, {}])
+            ex_step = st[1]
+            col.count(("-e", fname, e, rc))
+            det = {"argv": argv, "exit": rc, "stdout": out[:300].decode("latin-1"), "stderr": err[:300].decode("latin-1"), "library": ex_step}
+            sel = filedata if outfile else out
+            if rc not in (0, 1):
+                col.viol("exit-status:-e:%s" % rc, "bloc %s: exit %s" % (" ".join(argv), rc), det)
+            elif ex_step.get("r") == "ok":
+                want = render_return(ex_step.get("val"))
+                if want is None:
+                    want = unhex(st[3].get("out", "")).rstrip(b"\n") if len(st) > 3 else b""
+                if rc != 0 or sel != want or (outfile and out):
+                    col.viol("output:-e:%s" % fname, "bloc %s: exit %s, selected output %r, standard output %r; the value is %r" % (" ".join(argv), rc, sel, out[:100], ex_step.get("val")), det)
+            elif rc != 1 or not err.strip():
+                col.viol("exit-status:-e:error-not-reported", "bloc %s: exit %s stderr %r although the library reports %s" % (" ".join(argv), rc, err[:200], ex_step), det)
+    for e in EXPRS_EXTRA:
+        for argv in (["-e"] + e.split(" "), ["-e", e]):
+            rc, out, err, _ = run_cli((exe, env, argv, None, None))
+            col.count(("-e", "extra", e, rc))
+            if rc != 1 or out.strip() or not err.strip():
+                col.viol("-e:extra-input-accepted", "bloc %s: exit %s, stdout %r, stderr %r; the words after the expression must be reported" % (" ".join(argv), rc, out[:100], err[:100]),
+                         {"argv": argv, "exit": rc, "stdout": out[:300].decode("latin-1"), "stderr": err[:300].decode("latin-1")})
     ejobs = [(exe, env, ["-e"] + e.split(" "), None, None) for e in EXPRS]
     with concurrent.futures.ThreadPoolExecutor(max_workers=NWORK) as ex:
         eres = list(ex.map(run_cli, ejobs))
